@@ -26,34 +26,36 @@ def mk_number(kind, c):
 
 
 def gen_cases(chk, tier):
+    """systematic: every operation x every p-box kind (incl. partially degenerate ones) with the sign of c cycling"""
     rng = chk.rng
     out = []
-    n_cases = 112 if tier == "quick" else 1400
-    for i in range(n_cases):
-        op = OPS[i % len(OPS)]
-        kind = rng.choice(pbx.KINDS)
-        if op in ("log", "sqrt") and rng.random() < 0.8:
-            kind = rng.choice(["pos", "precise", "interval"]) if op == "log" else rng.choice(["pos", "zero_lo", "steps"])
-        if op in ("URecip", "URDiv") and rng.random() < 0.7:
-            kind = rng.choice(["pos", "neg"])
-        X = pbx.gen_bounds(rng, 200, kind, dy=rng.random() < 0.5)
-        if op in ("log", "sqrt") and kind in ("precise", "interval", "steps") and rng.random() < 0.8:
-            sh = -X[0][0] + pbx.dyadic(rng, 0.125, 2)
-            X = ([v + sh for v in X[0]], [v + sh for v in X[1]])
-        nk = rng.choice(NUM_KINDS)
-        r = rng.random()
-        if r < 0.2:
-            c = 0
-        elif r < 0.6:
-            c = rng.choice([-1, 1]) * rng.randint(1, 5)
-        else:
-            c = rng.choice([-1, 1]) * pbx.dyadic(rng, 0.125, 4.0)
-        if nk in ("int", "npint"):
-            c = int(round(c))
-        if op == "pow":
-            c = rng.choice([2, 3, 0.5, 1.5, 2.0, -1, -2, 4]) if pbx.sign_of(*X) in ("pos",) else rng.choice([2, 3, 4, -1, -2, 1])
-            nk = "float" if isinstance(c, float) else rng.choice(["int", "npint"])
-        out.append((op, X, nk, c, kind))
+    reps = 1 if tier == "quick" else 10
+    combos = [(op, kind) for op in OPS for kind in pbx.KINDS]
+    # decreasing maps on partially degenerate p-boxes: the whole-array switch must still fire
+    combos += [(op, kind) for op in ("UMul", "URMul", "UDiv", "URDiv", "URSub", "UNeg", "URecip", "pow") for kind in pbx.TOUCH]
+    signs = [-1, 0, 1, -1, 1]
+    for rep in range(reps):
+        for i, (op, kind) in enumerate(combos):
+            if op in ("log", "sqrt") and rng.random() < 0.8 and not kind.startswith("touch"):
+                kind = rng.choice(["pos", "precise", "interval"]) if op == "log" else rng.choice(["pos", "zero_lo", "steps"])
+            X = pbx.gen_bounds(rng, 200, kind, dy=rng.random() < 0.5)
+            if op in ("log", "sqrt", "URecip", "URDiv") and rng.random() < 0.8 and X[0][0] <= 0 <= X[1][-1]:
+                sh = -X[0][0] + pbx.dyadic(rng, 0.125, 2)
+                if rng.random() < 0.4 and op in ("URecip", "URDiv"):
+                    sh = -X[1][-1] - pbx.dyadic(rng, 0.125, 2)
+                X = ([v + sh for v in X[0]], [v + sh for v in X[1]])
+            nk = rng.choice(NUM_KINDS)
+            sgn = signs[(i + rep) % len(signs)]
+            if kind.startswith("touch_") and op in ("UMul", "URMul", "UDiv", "URDiv"):
+                sgn = -1
+            mag = rng.randint(1, 5) if rng.random() < 0.5 else pbx.dyadic(rng, 0.125, 4.0)
+            c = sgn * mag
+            if nk in ("int", "npint"):
+                c = int(round(c)) if abs(c) >= 1 else sgn
+            if op == "pow":
+                c = rng.choice([2, 3, 0.5, 1.5, 2.0, -1, -2, 4]) if X[0][0] > 0 else rng.choice([2, 3, 4, -1, -2, 1])
+                nk = "float" if isinstance(c, float) else rng.choice(["int", "npint"])
+            out.append((op, X, nk, c, kind))
     return out
 
 
